@@ -1,4 +1,4 @@
-"""C18 defect demo: fit raises for GammaLoss with one observed state (Gamma.diff_loss does not ravel the (n,1)
+"""C18 defect demo (REPAIRED in /repo by 9a6447c): fit raised for GammaLoss with one observed state (Gamma.diff_loss does not ravel the (n,1)
 prediction the way Gamma.loss / diff2Loss do).  Run: /venv/bin/python findings/C18_gamma_fit_demo.py  (VERIF_REPO=<tree>)"""
 import os, sys
 sys.path.insert(0, os.path.join(os.environ.get("VERIF_REPO", "/repo"), "src"))
